@@ -76,7 +76,10 @@ def tables(draw):
                 header=draw(st.booleans()), lonlat=draw(st.booleans()),
                 spell=draw(st.sampled_from(SPELL)), rt=draw(st.booleans()),
                 # particles that die between releases and stay in the state (as under the dense output layout)
-                kills=draw(st.sampled_from([0, 0, 0b1001, 0b110110])))
+                kills=draw(st.sampled_from([0, 0, 0b1001, 0b110110])),
+                # X, Y and lon, lat all in the table (documented: the grid position is used); lon/lat then are
+                # ordinary extra columns, here deliberately pointing somewhere else
+                both=draw(st.sampled_from([False, False, True])))
 
 
 def expected_schedule(case):
@@ -122,6 +125,8 @@ def oracle(case) -> core.CaseResult:
     res.cls("reversed" if case["reverse"] else "forward")
     res.cls("lonlat" if case["lonlat"] else "xy")
     res.cls("header" if case["header"] else "names")
+    if case.get("both") and not case["lonlat"]:
+        res.cls("xy_and_lonlat_columns")
 
     def T(step):
         return start + scen.S(sgn * step * DT)
@@ -132,15 +137,22 @@ def oracle(case) -> core.CaseResult:
         (pvars if e in case["as_pvar"] else ivars)[e] = typ
     if case["rt"]:
         pvars["release_time"] = "time"
+    if case.get("both") and not case["lonlat"]:
+        ivars["lon"] = float
+        ivars["lat"] = float
     state = State(instance_variables=ivars, particle_variables=pvars)
     tk = TimeKeeper(start=e2e.iso(start), stop=e2e.iso(stop), dt=DT, time_reversal=case["reverse"])
     cols = list(case["cols"])
+    both = bool(case.get("both")) and not case["lonlat"]
     if case["lonlat"]:
         cols = [{"X": "lon", "Y": "lat"}.get(c, c) for c in cols]
+    elif both:
+        cols = cols + ["lon", "lat"] if case["kills"] else ["lat"] + cols + ["lon"]
     lines = []
     for r in case["rows"]:
         vals = {"release_time": spell(T(r["step"]), case["spell"]), "X": repr(r["x"]), "Y": repr(r["y"]),
-                "lon": repr(2.0 + 0.02 * r["x"]), "lat": repr(58.0 + 0.01 * r["y"]), "Z": repr(r["z"]),
+                "lon": repr(2.0 + 0.02 * (r["x"] + (1.7 if both else 0.0))),
+                "lat": repr(58.0 + 0.01 * (r["y"] - (2.3 if both else 0.0))), "Z": repr(r["z"]),
                 "mult": r["mult"], "kind": r["kind"], "w": repr(r["w"]),
                 "hatch": str(np.datetime64(start + scen.S(r["hatch"]), "s"))}
         lines.append([vals[c] for c in cols])
@@ -199,6 +211,11 @@ def oracle(case) -> core.CaseResult:
                              f"step {step} particle {k} (pid {pid}): position ({state['X'][idx]}, {state['Y'][idx]}, "
                              f"{state['Z'][idx]}), expected row tag {r['tag']} at ({r['x']}, {r['y']}, {r['z']})"):
                 return res
+            if both:
+                res.check(abs(state["lon"][idx] - (2.0 + 0.02 * (r["x"] + 1.7))) <= 1e-12 and
+                          abs(state["lat"][idx] - (58.0 + 0.01 * (r["y"] - 2.3))) <= 1e-12, "extra_column_value",
+                          f"step {step} pid {pid}: lon/lat columns given next to X, Y arrive as "
+                          f"({state['lon'][idx]}, {state['lat'][idx]})")
             for e in case["extras"]:
                 arr = state[e]
                 v = arr[pid] if e in case["as_pvar"] else arr[idx]
